@@ -78,10 +78,14 @@ func (st *State) mapUpdate(m, k, v Val, pos token.Pos) {
 	mt := m.T.Underlying().(*types.Map)
 	mr := m.C[0]
 	kt := st.mapKeyTerm(mt, k)
+	st.instantiateFor(kt)
 	st.oblige("safety", "map-nil", e.curProps, not(eq(mr, "0")), pos)
 	dom, ln, vals, vcomps := e.mapNames(mt)
 	d := st.arr(dom, "(Array Int (Array Int Bool))")
 	had := sel(sel(d, mr), kt)
+	if len(st.frames) > 0 {
+		st.onMapInsert(st.top(), m, Val{T: mt.Key(), C: []string{kt}}, v, had, pos)
+	}
 	l := st.arr(ln, "(Array Int Int)")
 	st.setArr(ln, "(Array Int Int)", store(l, mr, ite(had, sel(l, mr), fmt.Sprintf("(+ %s 1)", sel(l, mr)))))
 	st.setArr(dom, "(Array Int (Array Int Bool))", store(d, mr, store(sel(d, mr), kt, "true")))
@@ -96,7 +100,11 @@ func (st *State) mapDelete(m, k Val, pos token.Pos) {
 	mt := m.T.Underlying().(*types.Map)
 	mr := m.C[0]
 	kt := st.mapKeyTerm(mt, k)
+	st.instantiateFor(kt)
 	dom, ln, _, _ := e.mapNames(mt)
+	if len(st.frames) > 0 {
+		st.onMapDelete(st.top(), m, Val{T: mt.Key(), C: []string{kt}}, pos)
+	}
 	d := st.arr(dom, "(Array Int (Array Int Bool))")
 	had := and(not(eq(mr, "0")), sel(sel(d, mr), kt))
 	l := st.arr(ln, "(Array Int Int)")
@@ -115,6 +123,7 @@ func (st *State) execLookup(fr *Frame, x *ssa.Lookup) {
 	}
 	st.guardMapAccess(fr, m, false, x.Pos())
 	kt := st.mapKeyTerm(mt, k)
+	st.instantiateFor(kt)
 	v := st.mapGet(mt, m.C[0], kt)
 	st.assumeLoaded(v)
 	if x.CommaOk {
@@ -451,7 +460,11 @@ func (st *State) callOut(fr *Frame, in ssa.Instruction, kind string, sig *types.
 		h(st, fr, args, parts, pos)
 	}
 	if c := e.ifaceSpecs[kind]; c != nil {
-		st.applyCallOutSpec(fr, c, kind, args, parts, pos)
+		pre := st.snapshot()
+		for _, m := range e.expandFrames(c.Modifies) {
+			st.havoc(strings.TrimPrefix(m, "new:"))
+		}
+		st.applyCallOutSpec(fr, c, kind, args, parts, pre, pos)
 	}
 	e.assumeUsed("call-out " + kind + ": results arbitrary within its assumed contract; does not re-enter the cache instance, does not retain or mutate slices passed to it, does not panic")
 	if in != nil {
